@@ -47,11 +47,11 @@ Print Assumptions C20_read_graph_render_partial.
    n = number of nodes, m = number of edges; without repeated pairs the edge list is the listing *)
 Theorem C20_graph_is_the_listing : forall (L : list wedge),
   let G := graph_of L in
-  NoDup (g_nodes G) /\ (forall x, In x (g_nodes G) <-> endpoint x L) /\
-  NoDup (map fst (g_edges G)) /\ (forall p, In p (map fst (g_edges G)) <-> In p (map fst L)) /\
-  (forall L1 u v w L2, L = L1 ++ (u, v, w) :: L2 -> ~ In (u, v) (map fst L2) -> In (u, v, w) (g_edges G)) /\
-  g_n G = length (g_nodes G) /\ g_m G = length (g_edges G) /\
-  (NoDup (map fst L) -> g_edges G = L).
+  NoDup (gi_nodes G) /\ (forall x, In x (gi_nodes G) <-> endpoint x L) /\
+  NoDup (map fst (gi_edges G)) /\ (forall p, In p (map fst (gi_edges G)) <-> In p (map fst L)) /\
+  (forall L1 u v w L2, L = L1 ++ (u, v, w) :: L2 -> ~ In (u, v) (map fst L2) -> In (u, v, w) (gi_edges G)) /\
+  gi_n G = length (gi_nodes G) /\ gi_m G = length (gi_edges G) /\
+  (NoDup (map fst L) -> gi_edges G = L).
 Proof. exact graph_of_spec. Qed.
 Print Assumptions C20_graph_is_the_listing.
 
@@ -270,10 +270,10 @@ Example C20_ex_result :
   read_graphs ex_file = FRes (Ok (map denote [ex_b1; ex_b2; ex_b3])) /\
   map denote [ex_b1; ex_b2; ex_b3] =
   [ {| gid := Some (s "graph 1  name = foo"); gcons := [[(s "a", s "b"); (s "b", s "c")]];
-       ginf := Some {| g_nodes := [s "a"; s "b"; s "c"]; g_edges := [(s "a", s "b", d true 25 2); (s "b", s "c", d false 2 0)]; g_n := 3; g_m := 2 |} |};
+       ginf := Some {| gi_nodes := [s "a"; s "b"; s "c"]; gi_edges := [(s "a", s "b", d true 25 2); (s "b", s "c", d false 2 0)]; gi_n := 3; gi_m := 2 |} |};
     {| gid := Some (s "empty"); gcons := []; ginf := None |};
     {| gid := None; gcons := [[(s "x", s "y")]];
-       ginf := Some {| g_nodes := [s "x"; s "y"]; g_edges := [(s "x", s "y", d false 750 2)]; g_n := 2; g_m := 1 |} |} ].
+       ginf := Some {| gi_nodes := [s "x"; s "y"]; gi_edges := [(s "x", s "y", d false 750 2)]; gi_n := 2; gi_m := 1 |} |} ].
 Proof. split; vm_compute; reflexivity. Qed.
 
 (* single-line corruptions of that file are rejected with the expected error *)
